@@ -30,6 +30,7 @@ type TierSpec struct {
 
 type HarnessSpec struct {
 	Name     string   `json:"name"`
+	Func     string   `json:"func"` // harness function (default: name); lets one function run as several variants
 	InCmd    bool     `json:"in_cmd"`
 	Desc     string   `json:"desc"`
 	Kind     string   `json:"kind"` // kernel | bounded
@@ -175,7 +176,10 @@ func cmdCheck(args []string) int {
 		if hs.InCmd {
 			pkg = l.cmdPkg
 		}
-		fn := pkg.Func(hs.Name)
+		if hs.Func == "" {
+			hs.Func = hs.Name
+		}
+		fn := pkg.Func(hs.Func)
 		if fn == nil {
 			problems = append(problems, "harness not found: "+hs.Name)
 			inconclusive++
@@ -256,7 +260,7 @@ func cmdCheck(args []string) int {
 				if s.RandN > 0 {
 					continue // random draws cannot be forced natively
 				}
-				rf := &ReplayFile{Property: *prop, Harness: hs.Name, InCmd: hs.InCmd, Inputs: s.Inputs, Params: params, Expect: "ok", Observe: s.Observe}
+				rf := &ReplayFile{Property: *prop, Harness: hs.Func, InCmd: hs.InCmd, Inputs: s.Inputs, Params: params, Expect: "ok", Observe: s.Observe}
 				p, err := writeReplay(dir, rf)
 				if err == nil {
 					files = append(files, p)
@@ -303,7 +307,7 @@ func cmdCheck(args []string) int {
 				continue
 			}
 			seen[key]++
-			rf := &ReplayFile{Property: *prop, Harness: hs.Name, InCmd: hs.InCmd, Inputs: c.Inputs, Params: params,
+			rf := &ReplayFile{Property: *prop, Harness: hs.Func, InCmd: hs.InCmd, Inputs: c.Inputs, Params: params,
 				Expect: statusExpect(c.Status), Label: c.Msg, Msg: c.Msg, Trace: c.Trace, Race: c.Status == interp.StRace || hs.Race}
 			if c.Status != interp.StViolation {
 				rf.Label = ""
